@@ -28,6 +28,9 @@ from typing import (
     cast,
 )
 
+if sys.version_info < (3, 11):
+    from exceptiongroup import ExceptionGroup
+
 from ._types import Stack, Frame, Context, StackSlice
 from ._code_dispatch import get_code
 from ._customization import (
@@ -428,11 +431,20 @@ def glue_contextlib() -> None:
                         context.inner_stack.frames[0], context
                     )
             else:
-                try:
-                    frame = _extract.extract_outermost(mgr.gen)
-                except RuntimeError:  # no frames
-                    pass
-                else:
+                # Like extract_outermost(mgr.gen), but keep track of the errors
+                # encountered on the way, so our caller can report them
+                errors: List[Exception] = []
+                with _extract.current_options.push(
+                    with_contexts=True, recurse_child_tasks=False
+                ):
+                    frame = next(_extract.extract_iter(mgr.gen, errors), None)
+                if len(errors) > 1:
+                    raise ExceptionGroup(
+                        "multiple errors encountered while extracting stack", errors
+                    )
+                if errors:
+                    raise errors[0]
+                if frame is not None:
                     return unwrap_context_generator(frame, context)
         return None
 
